@@ -148,30 +148,30 @@ func (r *Run) collectChanOps(skipAMR bool) []chanOp {
 
 // chanProtocol: the frozen protocol — "function | channel | kind" → count, reason.
 var chanProtocol = map[string]tabEntry{
-	"pebbles.(*Gateway).newSubscriptionEntry | local chan struct{} of pebbles.(*Gateway).newSubscriptionEntry | make": {2, "closeCh and queryerCloseCh, unbuffered"},
+	"pebbles.(*Gateway).newSubscriptionEntry | local chan struct{} of pebbles.(*Gateway).newSubscriptionEntry | make":           {2, "closeCh and queryerCloseCh, unbuffered"},
 	"pebbles.(*Gateway).newSubscriptionEntry | local chan *requests.Response of pebbles.(*Gateway).newSubscriptionEntry | make": {1, "respCh, unbuffered"},
-	"pebbles.(*subscriptionEntry).Close | subscriptionEntry.closeCh | send":            {1, "stop request: blocking rendezvous with Listen's select"},
-	"pebbles.(*subscriptionEntry).Listen | subscriptionEntry.respCh | select-recv":     {1, "event loop"},
-	"pebbles.(*subscriptionEntry).Listen | subscriptionEntry.closeCh | select-recv":    {1, "event loop: stop request"},
-	"pebbles.(*subscriptionEntry).Listen$1 | subscriptionEntry.queryerCloseCh | send":  {1, "tells the upstream closer goroutine to close the upstream connection (blocking rendezvous)"},
-	"pebbles.(*subscriptionEntry).Listen$1 | subscriptionEntry.queryerCloseCh | close": {1, "closed by its only sender after its only send"},
-	"pebbles.(*subscriptionEntry).Listen$1 | subscriptionEntry.closeCh | close":        {1, "see ownership obligation (known finding F22)"},
-	"pebbles.(*subscriptionEntry).Listen$1 | subscriptionEntry.respCh | close":         {1, "closed by the receiver; the upstream reader's last send is protected by recover (see ownership table)"},
-	"pebbles.sendHeartbeat | Ticker.C | select-recv":                                    {1, "keep-alive tick"},
-	"pebbles.sendHeartbeat | result of context.Context.Done | select-recv":              {1, "cancelled when the handler returns"},
-	"queryer.(*MultiOpQueryer).Subscribe | local chan error of queryer.(*MultiOpQueryer).Subscribe | make":  {1, "errCh: result of the upstream handshake"},
-	"queryer.(*MultiOpQueryer).Subscribe | local chan error of queryer.(*MultiOpQueryer).Subscribe | close": {1, "deferred; after the single receive"},
-	"queryer.(*MultiOpQueryer).Subscribe | local chan error of queryer.(*MultiOpQueryer).Subscribe | recv":  {1, "waits for the handshake result"},
-	"queryer.(*MultiOpQueryer).Subscribe$1 | subscriptionEntry.queryerCloseCh | recv":   {1, "upstream closer: unconditional blocking receive — Listen's teardown send depends on it"},
-	"queryer.(*MultiOpQueryer).Subscribe$2 | local chan error of queryer.(*MultiOpQueryer).Subscribe | send": {5, "exactly one handshake result per run (four failures, one success)"},
-	"queryer.(*MultiOpQueryer).Subscribe$2 | subscriptionEntry.respCh | send":           {2, "events and upstream error payloads, in arrival order"},
-	"queryer.(*MultiOpQueryer).Subscribe$2$1 | subscriptionEntry.respCh | send":         {1, "nil = upstream finished; inside a deferred function with nested recover"},
+	"pebbles.(*subscriptionEntry).Close | subscriptionEntry.closeCh | send":                                                     {1, "stop request: blocking rendezvous with Listen's select"},
+	"pebbles.(*subscriptionEntry).Listen | subscriptionEntry.respCh | select-recv":                                              {1, "event loop"},
+	"pebbles.(*subscriptionEntry).Listen | subscriptionEntry.closeCh | select-recv":                                             {1, "event loop: stop request"},
+	"pebbles.(*subscriptionEntry).Listen$1 | subscriptionEntry.queryerCloseCh | send":                                           {1, "tells the upstream closer goroutine to close the upstream connection (blocking rendezvous)"},
+	"pebbles.(*subscriptionEntry).Listen$1 | subscriptionEntry.queryerCloseCh | close":                                          {1, "closed by its only sender after its only send"},
+	"pebbles.(*subscriptionEntry).Listen$1 | subscriptionEntry.closeCh | close":                                                 {1, "see ownership obligation (known finding F22)"},
+	"pebbles.(*subscriptionEntry).Listen$1 | subscriptionEntry.respCh | close":                                                  {1, "closed by the receiver; the upstream reader's last send is protected by recover (see ownership table)"},
+	"pebbles.sendHeartbeat | Ticker.C | select-recv":                                                                            {1, "keep-alive tick"},
+	"pebbles.sendHeartbeat | result of context.Context.Done | select-recv":                                                      {1, "cancelled when the handler returns"},
+	"queryer.(*MultiOpQueryer).Subscribe | local chan error of queryer.(*MultiOpQueryer).Subscribe | make":                      {1, "errCh: result of the upstream handshake"},
+	"queryer.(*MultiOpQueryer).Subscribe | local chan error of queryer.(*MultiOpQueryer).Subscribe | close":                     {1, "deferred; after the single receive"},
+	"queryer.(*MultiOpQueryer).Subscribe | local chan error of queryer.(*MultiOpQueryer).Subscribe | recv":                      {1, "waits for the handshake result"},
+	"queryer.(*MultiOpQueryer).Subscribe$1 | subscriptionEntry.queryerCloseCh | recv":                                           {1, "upstream closer: unconditional blocking receive — Listen's teardown send depends on it"},
+	"queryer.(*MultiOpQueryer).Subscribe$2 | local chan error of queryer.(*MultiOpQueryer).Subscribe | send":                    {5, "exactly one handshake result per run (four failures, one success)"},
+	"queryer.(*MultiOpQueryer).Subscribe$2 | subscriptionEntry.respCh | send":                                                   {2, "events and upstream error payloads, in arrival order"},
+	"queryer.(*MultiOpQueryer).Subscribe$2$1 | subscriptionEntry.respCh | send":                                                 {1, "nil = upstream finished; inside a deferred function with nested recover"},
 }
 
 // chanOwnership: channels whose closer is not their only sender — reason or finding.
 var chanOwnership = map[string]string{
 	"local chan error of queryer.(*MultiOpQueryer).Subscribe": "the reader goroutine sends exactly one value (no send in a cycle, none reachable from another); Subscribe receives it before its deferred close runs",
-	"subscriptionEntry.respCh":                                  "closed by the receiver (Listen) after it told the upstream side to close; a late send by the upstream reader panics inside the goroutine whose deferred function re-panics on `resCh <- nil` and recovers, which also abandons the first panic (checked by experiment at design time); frame loss only at teardown",
+	"subscriptionEntry.respCh":                                "closed by the receiver (Listen) after it told the upstream side to close; a late send by the upstream reader panics inside the goroutine whose deferred function re-panics on `resCh <- nil` and recovers, which also abandons the first panic (checked by experiment at design time); frame loss only at teardown",
 }
 
 func ruleChannels(r *Run) {
@@ -348,21 +348,25 @@ func ruleConnWriters(r *Run) {
 		}
 		sort.Strings(names)
 		for _, c := range names {
+			// one obligation per (connection, writer context); sites are listed in the argument
+			var where []string
+			locked := true
 			for _, s := range ctxs[c] {
 				n++
-				construct := "write to " + conn + " from " + c
-				where := r.P.pos(s.ins.Pos())
-				if len(names) == 1 {
-					r.OK(rule, fnName(s.fn), construct, where, "only one goroutine context writes this connection")
-					continue
-				}
-				// several contexts: need a common must-held lock at every write
+				where = append(where, r.P.pos(s.ins.Pos()))
 				la := analyseLocks(s.fn)
-				if len(la.before[s.ins]) > 0 {
-					r.OK(rule, fnName(s.fn), construct, where, "a mutex is held at this write")
-					continue
+				if len(la.before[s.ins]) == 0 {
+					locked = false
 				}
-				r.Bad(rule, fnName(s.fn), construct, where, "the "+conn+" is written from "+fmt.Sprint(len(names))+" goroutine contexts ("+strings.Join(names, "; ")+") without a common lock: wsutil writes a frame as header + payload in separate Write calls, so frames from different goroutines can interleave and the peer receives a corrupted message")
+			}
+			construct := "write to " + conn + " from " + c
+			switch {
+			case len(names) == 1:
+				r.OK(rule, "", construct, where[0], "only one goroutine context writes this connection")
+			case locked:
+				r.OK(rule, "", construct, where[0], "a mutex is held at every write of this context")
+			default:
+				r.Bad(rule, "", construct, where[0], "the "+conn+" is written from "+fmt.Sprint(len(names))+" goroutine contexts ("+strings.Join(names, "; ")+") without a common lock (this context writes at "+strings.Join(where, ", ")+"): wsutil writes a frame as header + payload in separate Write calls, so frames from different goroutines can interleave and the peer receives a corrupted message")
 			}
 		}
 	}
@@ -509,36 +513,60 @@ func ruleEventPath(r *Run) {
 		}
 	}
 	r.OK(rule, fnName(l), "event path is sequential", r.P.pos(l.Pos()), fmt.Sprintf("%d functions reachable from Listen; the only goroutines are those of AsyncMapReduce, joined before return", n))
-	// the write happens in Listen's own loop body, after prepareResponse
+	// each event is stitched (prepareResponse) and then written by the same goroutine: the write
+	// is in Listen or in a function Listen calls (not spawns) after prepareResponse
 	var prep, write ssa.Instruction
+	sync := r.P.CG.Reachable([]*ssa.Function{l}, func(e *Edge) bool { _, isGo := e.Site.(*ssa.Go); return isGo })
 	for _, ins := range allInstrs(l) {
-		if ci, ok := ins.(ssa.CallInstruction); ok {
-			cn := calleeName(ci.Common())
-			if strings.HasSuffix(cn, "subscriptionEntry).prepareResponse") {
-				prep = ins
-			}
-			if strings.HasSuffix(cn, "wsutil.WriteServerText") {
-				write = ins
-			}
-		}
-	}
-	r.Check(prep != nil && write != nil && instrDominates(prep, write), rule, fnName(l), "stitch then write", r.P.pos(l.Pos()),
-		"each event is passed through prepareResponse and then written, in the receiving goroutine",
-		"Listen no longer writes each event itself after prepareResponse")
-	// R3d: message id
-	okID := false
-	for _, ins := range allInstrs(l) {
-		st, ok := ins.(*ssa.Store)
+		ci, ok := ins.(ssa.CallInstruction)
 		if !ok {
 			continue
 		}
-		fa, ok := st.Addr.(*ssa.FieldAddr)
-		if !ok || fieldOf(fa) == nil || fieldOf(fa).Name() != "ID" || !strings.HasSuffix(namedOf(fa.X.Type()), "requests.ServerSubMsg") {
+		if _, isGo := ins.(*ssa.Go); isGo {
 			continue
 		}
-		if ld, ok := st.Val.(*ssa.UnOp); ok && ld.Op == token.MUL {
-			if fa2, ok := ld.X.(*ssa.FieldAddr); ok && fieldOf(fa2) != nil && fieldOf(fa2).Name() == "id" && throughCell(fa2.X) == ssa.Value(l.Params[0]) {
-				okID = true
+		cn := calleeName(ci.Common())
+		if strings.HasSuffix(cn, "subscriptionEntry).prepareResponse") {
+			prep = ins
+		}
+		if strings.HasSuffix(cn, "wsutil.WriteServerText") {
+			write = ins
+		}
+		for _, e := range r.P.CG.Out[l] {
+			if e.Site != ci || e.Kind != "static" {
+				continue
+			}
+			for g := range r.P.CG.Reachable([]*ssa.Function{e.Callee}, func(e *Edge) bool { _, isGo := e.Site.(*ssa.Go); return isGo }) {
+				for _, i2 := range allInstrs(g) {
+					if c2, ok := i2.(ssa.CallInstruction); ok && strings.HasSuffix(calleeName(c2.Common()), "wsutil.WriteServerText") {
+						write = ins
+					}
+				}
+			}
+		}
+	}
+	r.Check(prep != nil && write != nil && (instrDominates(prep, write) || prep == write), rule, fnName(l), "stitch then write", r.P.pos(l.Pos()),
+		"each event is passed through prepareResponse and then written, in the receiving goroutine",
+		"Listen no longer writes each event itself (directly or through a synchronous helper) after prepareResponse")
+	// R3d: message id — the ID of the ServerSubMsg built on the event path is the receiver's id field
+	okID := false
+	for g := range sync {
+		if topFn(g).Pkg == nil || topFn(g).Pkg.Pkg.Path() != modPath || len(g.Params) == 0 {
+			continue
+		}
+		for _, ins := range allInstrs(g) {
+			st, ok := ins.(*ssa.Store)
+			if !ok {
+				continue
+			}
+			fa, ok := st.Addr.(*ssa.FieldAddr)
+			if !ok || fieldOf(fa) == nil || fieldOf(fa).Name() != "ID" || !strings.HasSuffix(namedOf(fa.X.Type()), "requests.ServerSubMsg") {
+				continue
+			}
+			if ld, ok := st.Val.(*ssa.UnOp); ok && ld.Op == token.MUL {
+				if fa2, ok := ld.X.(*ssa.FieldAddr); ok && fieldOf(fa2) != nil && fieldOf(fa2).Name() == "id" && throughCell(fa2.X) == ssa.Value(g.Params[0]) && namedOf(g.Params[0].Type()) == modPath+".subscriptionEntry" {
+					okID = true
+				}
 			}
 		}
 	}
